@@ -33,6 +33,12 @@ from pyvc.sorts import OptStr, PairS, RuleS
 from pyvc.values import BoundMethod, Ref, SeqV, Sym, z
 
 from .c13_render import is_str, py_join, py_repeat
+
+
+def pure(run):
+    from .c06 import pure as _pure
+
+    return _pure(run)
 from .pstate import SeqPair, p_children, p_end, p_start, r_name
 
 PAIR = "pest.pairs.Pair"
@@ -217,6 +223,8 @@ class PairDumps(DumpModel):
         return me, [ind], {"new_line": self.new_line}
 
     def post(self, run: Run, pre: Any, out: Any) -> None:
+        ok_, why_ = pure(run)
+        run.oblige("frame.pure", ok_, note=why_)
         p = pre["p"]
         run.oblige("result.is_str", is_str(out), note=f"returned {out!r}")
         if not is_str(out):
@@ -236,6 +244,8 @@ class PairDump(DumpModel):
         return self.mk_pair(run), [], {}
 
     def post(self, run: Run, pre: Any, out: Any) -> None:
+        ok_, why_ = pure(run)
+        run.oblige("frame.pure", ok_, note=why_)
         p = pre["p"]
         ok = isinstance(out, Ref) and not run.is_list(out) and run.cls_of(out) == "pydict"
         run.oblige("result.is_dict", ok)
@@ -282,6 +292,8 @@ class PairsDumps(DumpModel):
         return me, [], {"compact": self.compact}
 
     def post(self, run: Run, pre: Any, out: Any) -> None:
+        ok_, why_ = pure(run)
+        run.oblige("frame.pure", ok_, note=why_)
         run.oblige("result.is_str", is_str(out), note=f"returned {out!r}")
         if not is_str(out):
             return
@@ -302,6 +314,8 @@ class PairsDump(DumpModel):
         return me, [], {}
 
     def post(self, run: Run, pre: Any, out: Any) -> None:
+        ok_, why_ = pure(run)
+        run.oblige("frame.pure", ok_, note=why_)
         run.oblige("result.is_map_of_pairs", isinstance(out, MapDump) and z3.is_true(z3.simplify(out.seq == pre["S"])))
 
 
